@@ -92,7 +92,13 @@ impl Monitor for RefMon {
                 ),
             ));
         }
-        for (mi, (got, want)) in out.snap.machines.iter().zip(self.model.rt.iter()).enumerate() {
+        for (mi, (got, want)) in out
+            .snap
+            .machines
+            .iter()
+            .zip(self.model.rt.iter())
+            .enumerate()
+        {
             if got.current_state != want.current {
                 return Some((
                     "ref-state".into(),
@@ -307,7 +313,11 @@ pub fn gen_ref_case(
     let calls = gen_history(g, &machines, pf, bf, start, &rng, &hc, &mut local);
     let kinds = count_fault_kinds(&local);
     stats.merge(&local);
-    let clone_at = if calls.is_empty() { 0 } else { g.usize(calls.len()) };
+    let clone_at = if calls.is_empty() {
+        0
+    } else {
+        g.usize(calls.len())
+    };
     FwCase {
         machines,
         pf,
@@ -344,6 +354,7 @@ impl FwProp for C05 {
                 v
             },
             totality: false,
+            cpu_limit_s: crate::sup::CASE_CPU_LIMIT_S,
             exhaustive: false,
         }
     }
